@@ -123,6 +123,15 @@ async fn ignores(cases: &str, base: &str) {
 	w("home/.config/watchexec/ignore", "from_global_app\n");
 	w("proj/extra.ign", "from_explicit_file\n");
 	w("proj/filters.txt", "*.keep\n");
+	let _ = std::fs::remove_dir_all(base.join("proj2"));
+	std::fs::create_dir_all(base.join("proj2/sub")).unwrap();
+	std::fs::create_dir_all(base.join("outside")).unwrap();
+	w("proj2/.gitignore", "from_gitignore\n");
+	w("proj2/.ignore", "from_dotignore\n");
+	w("proj2/sub/.hgignore", "from_hgignore\n");
+	w("proj2/sub/.gitignore", "from_sub_gitignore\n");
+	w("proj2/extra.ign", "from_explicit_file\n");
+	w("proj2/filters.txt", "*.keep\n");
 	std::env::set_var("HOME", &home);
 	std::env::set_var("XDG_CONFIG_HOME", home.join(".config"));
 	for v in ["APPDATA", "USERPROFILE", "GIT_CONFIG_GLOBAL", "GIT_CONFIG_SYSTEM", "WATCHEXEC_IGNORE_FILES"] {
@@ -135,8 +144,11 @@ async fn ignores(cases: &str, base: &str) {
 		("git/ignore", 6), ("watchexec/ignore", 7), ("extra.ign", 9),
 	];
 	for case in read_cases(cases) {
+		// layouts: the default project is a git repository; "novcs" is the same tree without any VCS metadata directory
+		let proj = if case["layout"] == "novcs" { base.join("proj2") } else { proj.clone() };
+		std::env::set_current_dir(&proj).unwrap();
 		let mut argv = vec!["watchexec".to_owned(), "--project-origin".into(), proj.to_string_lossy().into_owned()];
-		argv.extend(strs(&case["args"]));
+		argv.extend(strs(&case["args"]).into_iter().map(|a| a.replace("@PROJ@", &proj.to_string_lossy())));
 		argv.extend(["--".to_owned(), "true".to_owned()]);
 		let a = match watchexec_cli::verif::args_from(argv.clone()).await {
 			Ok(a) => a,
@@ -173,7 +185,8 @@ async fn ignores(cases: &str, base: &str) {
 				_ => FileEventKind::Modify(ModifyKind::Data(DataChange::Content)),
 			};
 			let ev = Event {
-				tags: vec![Tag::Path { path: proj.join(name), file_type: Some(FileType::File) }, Tag::FileEventKind(fek)],
+				// "OUT/<name>": a path outside the project origin (another watched directory)
+				tags: vec![Tag::Path { path: match name.strip_prefix("OUT/") { Some(n) => base.join("outside").join(n), None => proj.join(name) }, file_type: Some(FileType::File) }, Tag::FileEventKind(fek)],
 				metadata: Default::default(),
 			};
 			verdicts.insert(probe.clone(), json!(filterer.check_event(&ev, Priority::Normal).unwrap()));
